@@ -355,6 +355,8 @@ def find_urls(data: bytes) -> list[Node]:
         if not is_url(group):
             continue
         normalized, obfuscation = normalize_percent_encoding(group)
+        if normalized != group and not is_url(normalized):
+            continue  # decoding an escape made the URL invalid, e.g. an escaped dot in an IPv6 zone id
         out.append(
             Node(
                 URL_TYPE,
